@@ -50,8 +50,7 @@ Definition path_count (t : traits) (h : heap) (k : hkey) (gs : list graph) (r x 
   length (filter (user_hook_eqb x f) (flat_map (fun g => expected t h k g r) gs)).
 
 (* tree-shaped heaps: links go strictly up a rank (no cycle), no object is referenced twice *)
-Definition ranked (rank : oid -> nat) (h : heap) : Prop :=
-  forall x f y, In y (h x f) -> rank x < rank y.
+(* [ranked] is Common/ObsCore.ranked *)
 Definition unshared (h : heap) : Prop :=
   (forall x f, NoDup (h x f)) /\
   (forall x f x' f' y, In y (h x f) -> In y (h x' f') -> x = x' /\ f = f').
